@@ -29,6 +29,7 @@
                                   if check_grammar and attr not in allowed_args: raise AttributeError
                                   i = allowed_args.index(attr)                 # ValueError when unchecked and absent
                                   self.setAttrNS(allowed_attrs[i][0], allowed_attrs[i][1], value)     → `setAttribute`
+  Element.__init__ (**args)   for arg in args.keys(): self.setAttribute(arg, args[arg])                   → `loadKeywords`, `constructKw`
   (the value conversion done by setAttrNS belongs to C15 and is not modelled here; the
   `attr == 'parent'` shortcut of setAttribute is addElement on the other element.)
 -/
@@ -111,6 +112,33 @@ def construct (check : Bool) (e : Nat) (given : List Nat) : Except (Err × Nat) 
     | some r => .error (.AttributeError, r)
     | none => .ok ()
   else .ok ()
+
+/-- how the constructor can fail: both are Python `AttributeError`s -/
+inductive CtorErr where
+  | refusedKeyword (kw : Nat)      -- raised by setAttribute: "Attribute … is not allowed in" / "Unable to add simple attribute"
+  | missingRequired (a : Nat)      -- "Required attribute missing: …"
+  deriving DecidableEq, Repr
+
+/-- the `**args` loop of the constructor.  Since /repo 36c2235 both branches read
+        for arg in args.keys(): self.setAttribute(arg, args[arg])
+    — with or without an allowed_attributes row, and with setAttribute's *default*
+    `check_grammar=True` whatever flag the constructor got.  The first refused keyword raises;
+    accepted keywords add their attribute to what the required loop sees. -/
+def loadKeywords (e : Nat) : List Nat → List Nat → Except CtorErr (List Nat)
+  | [], given => .ok given
+  | kw :: rest, given =>
+    match setAttribute T true e kw with
+    | .ok a => loadKeywords e rest (given ++ [a])
+    | .error _ => .error (.refusedKeyword kw)
+
+/-- the constructor called with qualified attributes `given` and keyword arguments `kws` -/
+def constructKw (check : Bool) (e : Nat) (given kws : List Nat) : Except CtorErr Unit :=
+  match loadKeywords T e kws given with
+  | .error err => .error err
+  | .ok given' =>
+    match construct T check e given' with
+    | .ok _ => .ok ()
+    | .error (_, r) => .error (.missingRequired r)
 
 /-! decisions as Booleans (what the C06 theorems compare with the schema) -/
 
